@@ -61,6 +61,63 @@ class Function:
                     if s is not None:
                         self.blocks[s].preds.append(b.id)
             self._resolve()
+            self._canon()
+
+    def _canon(self):
+        """Spelling normalisation, so that rules see one form of equivalent expressions (the form this code base uses):
+        `x = x op y` -> `x op= y`;  `*(a + i)` -> `a[i]`.  The rewritten node keeps a "canon" marker."""
+        from . import ex as _ex
+        COMM = ("+", "|", "&", "^", "*")
+        OPS = ("+", "-", "|", "&", "^", "<<", ">>", "*")
+
+        def unparen(n):
+            n = _ex.deref(n)
+            while isinstance(n, dict) and n.get("k") == "paren":
+                n = _ex.deref(n.get("e"))
+            return n
+
+        def pure(n):
+            return not any(x.get("k") == "call" or (x.get("k") == "un" and ("++" in x.get("op", "") or "--" in x.get("op", "")))
+                           or x.get("k") == "asg" for x in _ex.walk(n))
+
+        def visit(n):
+            if isinstance(n, list):
+                for x in n:
+                    visit(x)
+                return
+            if not isinstance(n, dict):
+                return
+            for k, v in list(n.items()):
+                if k != "tgt" and isinstance(v, (dict, list)):
+                    visit(v)
+            kk = n.get("k")
+            if kk == "asg" and n.get("op") == "=" and n.get("r") is not None:
+                r = unparen(n["r"])
+                if isinstance(r, dict) and r.get("k") == "bin" and r.get("op") in OPS and pure(n["l"]):
+                    if _ex.same(n["l"], r["l"]):
+                        n["op"], n["r"], n["canon"] = r["op"] + "=", r["r"], "x=x op y"
+            if n.get("k") == "asg" and n.get("op") in ("+=", "-=") and _ex.const_val(n.get("r")) == 1 and pure(n["l"]):
+                # `x += 1` / `x = x + 1` -> `++x` (same value as an expression)
+                l, ln, op = n["l"], n.get("ln"), n["op"]
+                n.clear()
+                n.update({"k": "un", "op": "pre++" if op == "+=" else "pre--", "e": l, "canon": "x op= 1"})
+                if ln is not None:
+                    n["ln"] = ln
+            elif kk == "un" and n.get("op") == "*":
+                e = unparen(n.get("e"))
+                if isinstance(e, dict) and e.get("k") == "bin" and e.get("op") == "+":
+                    l, r = e["l"], e["r"]
+                    if _ex.const_val(l) is not None and _ex.const_val(r) is None:
+                        l, r = r, l
+                    ln = n.get("ln")
+                    n.clear()
+                    n.update({"k": "idx", "b": l, "i": r, "canon": "*(a+i)"})
+                    if ln is not None:
+                        n["ln"] = ln
+        for b in self.blocks.values():
+            visit(b.elems)
+            if b.term and "cond" in b.term:
+                visit(b.term["cond"])
 
     @property
     def key(self):
